@@ -255,7 +255,9 @@ func genPoss(r *core.Rand) gPoss {
 	}
 	p := gPoss{Name: r.Pick(pkgNames)}
 	if r.Chance(1, 10) {
-		p.Name = r.Str("abcxyz0123456789+-.", r.Range(1, 12))
+		// Policy: package names start with an alphanumeric (a lone "." on a folded line would
+		// be the deb822 marker for an empty line)
+		p.Name = r.Str("abcxyz0123456789", 1) + r.Str("abcxyz0123456789+-.", r.Range(1, 11))
 	}
 	if r.Chance(1, 4) {
 		p.Qual = r.Pick([]string{"any", "native", "amd64", "all", "armhf", "linux-any"})
